@@ -54,14 +54,13 @@ structure ValueS where
 instance : Inhabited ValueS := ⟨{}⟩
 
 /-- `Node` (`_core.py:2063-2180`): input / output tuples, owning graph, name, op type (used by the name
-authority), graphs held in attributes. -/
+authority). -/
 structure NodeS where
   inputs : List (Option Nat) := []
   outputs : List Nat := []
   graph : Option Nat := none
   name : Option String := none
   opType : String := ""
-  attrGraphs : List Nat := []
   deriving DecidableEq, Repr
 
 instance : Inhabited NodeS := ⟨{}⟩
@@ -239,25 +238,524 @@ def newNodeCore (w : World) (opType : String) (name : Option String) (inputs : L
 def rauwUses (w : World) (v r : Nat) : World :=
   (w.val v).uses.foldl (fun w u => setInput w u.1 u.2 (some r)) w
 
+/-! ## Tracked graph input / output lists  (`_graph_containers.py:27-260`) -/
+
+inductive IOKind where
+  | inp
+  | out
+  deriving DecidableEq, Repr
+
+def ioList : IOKind → GraphS → List Nat
+  | .inp, r => r.inputs
+  | .out, r => r.outputs
+def ioCnt : IOKind → GraphS → List Nat
+  | .inp, r => r.inCnt
+  | .out, r => r.outCnt
+def setIoList : IOKind → GraphS → List Nat → GraphS
+  | .inp, r, l => { r with inputs := l }
+  | .out, r, l => { r with outputs := l }
+def setIoCnt : IOKind → GraphS → List Nat → GraphS
+  | .inp, r, l => { r with inCnt := l }
+  | .out, r, l => { r with outCnt := l }
+def ioFlag : IOKind → ValueS → Bool
+  | .inp, r => r.isIn
+  | .out, r => r.isOut
+def setIoFlag : IOKind → ValueS → Bool → ValueS
+  | .inp, r, b => { r with isIn := b }
+  | .out, r, b => { r with isOut := b }
+
+/-- `Value._owned_by_graph` (`_core.py:3145-3150`) -/
+def owned (r : ValueS) : Bool := r.isIn || r.isOut || r.isInit
+
+/-- `_check_value` of `GraphInputs` / `GraphOutputs`: not owned by another graph; inputs have no
+producer -/
+def checkIO (w : World) (g : Nat) (k : IOKind) (v : Nat) : Bool :=
+  (decide ((w.val v).graph = none) || decide ((w.val v).graph = some g)) &&
+    (decide (k = .out) || decide ((w.val v).producer = none))
+
+/-- `_set_graph` after the check: counter, flag, owning graph -/
+def setIO (w : World) (g : Nat) (k : IOKind) (v : Nat) : World :=
+  let r := w.gr g
+  let w1 := w.setGr g (setIoCnt k r (lset (ioCnt k r) v (lget (ioCnt k r) v + 1)))
+  w1.setVal v (setIoFlag k { w1.val v with graph := some g } true)
+
+/-- `_maybe_unset_graph`: counter; flag and owning graph only when the last reference goes -/
+def unsetIO (w : World) (g : Nat) (k : IOKind) (v : Nat) : World :=
+  let r := w.gr g
+  let c := lget (ioCnt k r) v - 1
+  let w1 := w.setGr g (setIoCnt k r (lset (ioCnt k r) v c))
+  if c > 0 then w1 else
+    let x := setIoFlag k (w1.val v) false
+    w1.setVal v { x with graph := if owned x then x.graph else none }
+
+def insertAt (l : List Nat) (pos v : Nat) : List Nat := l.take pos ++ v :: l.drop pos
+
+/-- guarded primitive: own `v` and put it at position `pos` -/
+def ioInsert (w : World) (g : Nat) (k : IOKind) (pos v : Nat) : World :=
+  if checkIO w g k v then
+    let w1 := setIO w g k v
+    w1.setGr g (setIoList k (w1.gr g) (insertAt (ioList k (w1.gr g)) pos v))
+  else w
+
+/-- guarded primitive: take the element at `pos` out and release it -/
+def ioRemoveAt (w : World) (g : Nat) (k : IOKind) (pos : Nat) : World :=
+  match (ioList k (w.gr g))[pos]? with
+  | none => w
+  | some v =>
+    let w1 := w.setGr g (setIoList k (w.gr g) ((ioList k (w.gr g)).eraseIdx pos))
+    unsetIO w1 g k v
+
+def ioReverse (w : World) (g : Nat) (k : IOKind) : World :=
+  w.setGr g (setIoList k (w.gr g) (ioList k (w.gr g)).reverse)
+
+/-- Python index normalisation for `list[i]` / `pop(i)`: `none` = IndexError -/
+def normIndex (len : Nat) (i : Int) : Option Nat :=
+  let j := if i < 0 then i + len else i
+  if j < 0 ∨ j ≥ len then none else some j.toNat
+
+/-- `list.insert` position -/
+def insertPos (len : Nat) (i : Int) : Nat :=
+  let j := if i < 0 then i + len else i
+  if j < 0 then 0 else if j > len then len else j.toNat
+
+/-- `slice.indices(len)` (CPython `PySlice_AdjustIndices`): the positions addressed by
+`[start:stop:step]` in order, and whether the slice is a simple one (step 1).  `none` = step 0. -/
+def sliceAdjust (len : Nat) (step : Int) (x : Option Int) (dflt : Int) : Int :=
+  match x with
+  | none => dflt
+  | some s =>
+    if s < 0 then
+      let s' := s + len
+      if s' < 0 then (if step < 0 then -1 else 0) else s'
+    else if s ≥ len then (if step < 0 then (len : Int) - 1 else len)
+    else s
+
+structure SliceIx where
+  start : Nat
+  stop : Nat          -- only meaningful for step = 1 (stop ≥ start)
+  step1 : Bool
+  pos : List Nat
+  deriving Repr
+
+def sliceIndices (len : Nat) (start stop step : Option Int) : Option SliceIx :=
+  let st := step.getD 1
+  if st = 0 then none else
+    let a := sliceAdjust len st start (if st < 0 then (len : Int) - 1 else 0)
+    let b := sliceAdjust len st stop (if st < 0 then -1 else len)
+    let n : Nat :=
+      if st < 0 then (if b < a then ((a - b - 1) / (-st) + 1).toNat else 0)
+      else (if a < b then ((b - a - 1) / st + 1).toNat else 0)
+    some { start := a.toNat, stop := (if b < a then a else b).toNat, step1 := decide (st = 1),
+           pos := (List.range n).map (fun (j : Nat) => (a + (j : Int) * st).toNat) }
+
+/-- insert the values `vs` at consecutive positions starting at `pos` -/
+def ioInsertMany (w : World) (g : Nat) (k : IOKind) (pos : Nat) (vs : List Nat) : World :=
+  (enumFrom pos vs).foldl (fun w p => ioInsert w g k p.1 p.2) w
+
+/-- remove the given positions, largest first (so that the remaining positions stay valid) -/
+def ioRemoveMany (w : World) (g : Nat) (k : IOKind) (ps : List Nat) : World :=
+  (ps.mergeSort (fun a b => decide (b ≤ a))).foldl (fun w p => ioRemoveAt w g k p) w
+
+/-- replace position by position (`lst[p_j] = v_j`) -/
+def ioReplaceMany (w : World) (g : Nat) (k : IOKind) (ps : List Nat) (vs : List Nat) : World :=
+  (ps.zip vs).foldl (fun w p => ioInsert (ioRemoveAt w g k p.1) g k p.1 p.2) w
+
+inductive IOMut where
+  | append (v : Nat)
+  | extend (vs : List Nat)
+  | insert (i : Int) (v : Nat)
+  | pop (i : Int)
+  | remove (v : Nat)
+  | clear
+  | setItem (i : Int) (v : Nat)
+  | setSlice (start stop step : Option Int) (vs : List Nat)
+  | delItem (i : Int)
+  | delSlice (start stop step : Option Int)
+  | reverse
+  | iadd (vs : List Nat)
+  | imul (k : Int)
+  deriving Repr
+
+/-- run `f` at a position when there is one -/
+def atPos (o : Option Nat) (f : Nat → World) (w : World) : World :=
+  match o with
+  | some p => f p
+  | none => w
+
+/-- every mutator of `_GraphIO` (`_graph_containers.py:58-165`, after the validate-first fixes): the
+rejecting condition, then the mutation -/
+def ioMut (w : World) (g : Nat) (k : IOKind) : IOMut → World × Outcome
+  | .append v => guardOp (!checkIO w g k v) "ValueError" w (ioInsert w g k (ioList k (w.gr g)).length v)
+  | .extend vs =>
+    guardOp (!vs.all (checkIO w g k)) "ValueError" w (ioInsertMany w g k (ioList k (w.gr g)).length vs)
+  | .insert i v =>
+    guardOp (!checkIO w g k v) "ValueError" w (ioInsert w g k (insertPos (ioList k (w.gr g)).length i) v)
+  | .pop i =>
+    let p := normIndex (ioList k (w.gr g)).length i
+    guardOp p.isNone "IndexError" w (atPos p (ioRemoveAt w g k) w)
+  | .remove v =>
+    let p := (ioList k (w.gr g)).idxOf? v
+    guardOp p.isNone "ValueError" w (atPos p (ioRemoveAt w g k) w)
+  | .clear => (iter (fun w => ioRemoveAt w g k 0) (ioList k (w.gr g)).length w, .ok)
+  | .setItem i v =>
+    let p := normIndex (ioList k (w.gr g)).length i
+    guardOp (p.isNone || !checkIO w g k v) "IndexError|ValueError" w
+      (atPos p (fun p => ioInsert (ioRemoveAt w g k p) g k p v) w)
+  | .setSlice start stop step vs =>
+    match sliceIndices (ioList k (w.gr g)).length start stop step with
+    | none => (w, .raised "ValueError")
+    | some ix =>
+      guardOp (!vs.all (checkIO w g k) || (!ix.step1 && decide (ix.pos.length ≠ vs.length))) "ValueError" w
+        (if ix.step1 then ioInsertMany (ioRemoveMany w g k ((List.range (ix.stop - ix.start)).map (· + ix.start))) g k ix.start vs
+         else ioReplaceMany w g k ix.pos vs)
+  | .delItem i =>
+    let p := normIndex (ioList k (w.gr g)).length i
+    guardOp p.isNone "IndexError" w (atPos p (ioRemoveAt w g k) w)
+  | .delSlice start stop step =>
+    match sliceIndices (ioList k (w.gr g)).length start stop step with
+    | none => (w, .raised "ValueError")
+    | some ix => (ioRemoveMany w g k ix.pos, .ok)
+  | .reverse => (ioReverse w g k, .ok)
+  | .iadd _ => (w, .raised "RuntimeError")
+  | .imul _ => (w, .raised "RuntimeError")
+
+/-! ## Name authority  (`_name_authority.py`) -/
+
+def valName (k : Nat) : String := "val_" ++ toString k
+def nodeName (op : String) (k : Nat) : String := "node_" ++ op ++ "_" ++ toString k
+
+/-- the `while True` loop of `_unique_value_name` / `_unique_node_name` with an iteration budget
+(`|seen| + 1` iterations always suffice: C15) -/
+def uniqueLoop (mk : Nat → String) (seen : List String) : Nat → Nat → String × Nat
+  | 0, c => (mk c, c + 1)
+  | fuel + 1, c => if seen.contains (mk c) then uniqueLoop mk seen fuel (c + 1) else (mk c, c + 1)
+
+def addName (seen : List String) (s : String) : List String := if seen.contains s then seen else s :: seen
+
+/-- plain `Value.name = s` for a value that is not an initializer (`_core.py:3220-3226`): the const
+tensor is renamed as well -/
+def setNamePlain (w : World) (v : Nat) (s : Option String) : World :=
+  let w1 := w.setVal v { w.val v with name := s }
+  match (w.val v).const with
+  | none => w1
+  | some t => { w1 with tensors := lset w1.tensors t s }
+
+/-- `register_or_name_value` (`_name_authority.py:55-63`) -/
+def registerValue (w : World) (g v : Nat) : World :=
+  match (w.val v).name with
+  | some s => w.setGr g { w.gr g with vNames := addName (w.gr g).vNames s }
+  | none =>
+    let r := w.gr g
+    let (s, c) := uniqueLoop valName r.vNames (r.vNames.length + 1) r.vCtr
+    let w1 := w.setGr g { r with vCtr := c, vNames := addName r.vNames s }
+    if (w.val v).isInit then w1 else setNamePlain w1 v (some s)
+
+/-- `register_or_name_node` (`_name_authority.py:65-72`) -/
+def registerNode (w : World) (g n : Nat) : World :=
+  match (w.node n).name with
+  | some s => w.setGr g { w.gr g with nNames := addName (w.gr g).nNames s }
+  | none =>
+    let r := w.gr g
+    let (s, c) := uniqueLoop (nodeName (w.node n).opType) r.nNames (r.nNames.length + 1) r.nCtr
+    (w.setGr g { r with nCtr := c, nNames := addName r.nNames s }).setNode n { w.node n with name := some s }
+
+/-! ## Initializers  (`_graph_containers.py:262-345`, `_core.py:3200-3247`, `3622-3652`) -/
+
+def falsy (s : Option String) : Bool := s = none || s = some ""
+
+def lookupInit (l : List (String × Nat)) (k : String) : Option Nat := (l.find? (fun p => p.1 = k)).map (·.2)
+
+/-- dict assignment: an existing key keeps its position -/
+def dictSet (l : List (String × Nat)) (k : String) (v : Nat) : List (String × Nat) :=
+  if (l.any (fun p => p.1 = k)) then l.map (fun p => if p.1 = k then (k, v) else p) else l ++ [(k, v)]
+
+def dictDel (l : List (String × Nat)) (k : String) : List (String × Nat) := l.filter (fun p => p.1 ≠ k)
+
+/-- all the checks of `GraphInitializers.__setitem__` (after the validate-first fix) -/
+def initOK (w : World) (g : Nat) (key : String) (v : Nat) : Bool :=
+  let r := w.val v
+  key ≠ "" && (falsy r.name || r.name = some key) && r.producer = none &&
+    (r.graph = none || r.graph = some g) && (!falsy r.name || !r.isInit)
+
+/-- `_maybe_unset_graph` of the initializer mapping -/
+def unsetInit (w : World) (v : Nat) : World :=
+  let x := { w.val v with isInit := false }
+  w.setVal v { x with graph := if owned x then x.graph else none }
+
+/-- guarded primitive: `del initializers[key]` -/
+def initDel (w : World) (g : Nat) (key : String) : World :=
+  match lookupInit (w.gr g).inits key with
+  | none => w
+  | some old => (unsetInit w old).setGr g { w.gr g with inits := dictDel (w.gr g).inits key }
+
+/-- guarded primitive: body of `initializers[key] = v`: name an unnamed value after the key, release
+the previous holder of the key, own `v`, store it -/
+def initPut (w : World) (g : Nat) (key : String) (v : Nat) : World :=
+  if initOK w g key v then
+    let w1 := if falsy (w.val v).name then setNamePlain w v (some key) else w
+    let w2 := match lookupInit (w1.gr g).inits key with
+      | some old => unsetInit w1 old
+      | none => w1
+    let w3 := w2.setVal v { w2.val v with isInit := true, graph := some g }
+    w3.setGr g { w3.gr g with inits := dictSet (w3.gr g).inits key v }
+  else w
+
+inductive InitMut where
+  | setItem (key : String) (v : Nat)
+  | delItem (key : String)
+  | add (v : Nat)
+  | pop (key : String)
+  | popitem
+  | clear
+  | update (kvs : List (String × Nat))
+  | setdefault (key : String) (v : Nat)
+  | register (v : Nat)
+  deriving Repr
+
+def initSetItem (w : World) (g : Nat) (key : String) (v : Nat) : World × Outcome :=
+  guardOp (!initOK w g key v) "ValueError" w (initPut w g key v)
+
+/-- one `__setitem__` per entry, stopping at the first rejected one -/
+def initUpdateSeq (w : World) (g : Nat) : List (String × Nat) → World × Outcome
+  | [] => (w, .ok)
+  | (k, v) :: rest =>
+    match initSetItem w g k v with
+    | (w1, .ok) => initUpdateSeq w1 g rest
+    | r => r
+
+/-- `update` / `|=` / the constructor's dict: every entry is checked first (taking into account the
+names the call itself assigns to unnamed values), then the entries are assigned one by one; i.e. all
+or nothing -/
+def initUpdate (w : World) (g : Nat) (kvs : List (String × Nat)) : World × Outcome :=
+  guardOp (decide ((initUpdateSeq w g kvs).2 ≠ .ok)) "ValueError" w (initUpdateSeq w g kvs).1
+
+def withName (o : Option String) (f : String → World) (w : World) : World :=
+  match o with
+  | some s => f s
+  | none => w
+
+def initMut (w : World) (g : Nat) : InitMut → World × Outcome
+  | .setItem key v => initSetItem w g key v
+  | .delItem key =>
+    guardOp ((lookupInit (w.gr g).inits key).isNone) "KeyError" w (initDel w g key)
+  | .add v =>
+    let nm := (w.val v).name
+    guardOp (nm.isNone || !initOK w g (nm.getD "") v) "TypeError|ValueError" w
+      (withName nm (fun key => initPut w g key v) w)
+  | .pop key =>
+    guardOp ((lookupInit (w.gr g).inits key).isNone) "KeyError" w (initDel w g key)
+  | .popitem =>
+    guardOp (w.gr g).inits.isEmpty "KeyError" w
+      (withName ((w.gr g).inits.head?.map (·.1)) (fun k => initDel w g k) w)
+  | .clear => (iter (fun w => withName ((w.gr g).inits.head?.map (·.1)) (fun k => initDel w g k) w)
+      (w.gr g).inits.length w, .ok)
+  | .update kvs => initUpdate w g kvs
+  | .setdefault key v =>
+    let present := (lookupInit (w.gr g).inits key).isSome
+    guardOp (!present && !initOK w g key v) "ValueError" w (if present then w else initPut w g key v)
+  | .register v =>
+    let nm := (w.val v).name
+    let key := nm.getD ""
+    guardOp (nm.isNone || key = "" || (match lookupInit (w.gr g).inits key with
+        | some old => old ≠ v
+        | none => false) || (w.val v).const = none || !initOK w g key v) "ValueError" w (initPut w g key v)
+
+/-- `Value.name = s` (`_core.py:3200-3247`, with the empty-name check of the fix): nothing to do for
+the same name; an initializer may only take a non-empty name that is not a key of its graph, and is
+re-keyed (moved to the end of the mapping) -/
+def setName (w : World) (v : Nat) (s : Option String) : World × Outcome :=
+  let r := w.val v
+  let reKey : Option (String × Nat × String) :=
+    match s, r.graph, r.name with
+    | some new, some g, some old => some (new, g, old)
+    | _, _, _ => none
+  guardOp (decide (r.name ≠ s) && r.isInit &&
+      (match reKey with
+        | some (new, g, _) => decide (new = "") || (lookupInit (w.gr g).inits new).isSome
+        | none => true)) "ValueError" w
+    (if r.name = s then w
+     else if r.isInit then
+       match reKey with
+       | some (new, g, old) => initPut (setNamePlain (initDel w g old) v (some new)) g new v
+       | none => w
+     else setNamePlain w v s)
+
+/-! ## Node membership  (`_core.py:3691-3714`, `3842-3947`, `_linked_list.py:151-284`) -/
+
+def nodeAddable (w : World) (g n : Nat) : Bool := (w.node n).graph = none || (w.node n).graph = some g
+
+def insertAfter (l : List Nat) (anchor : Option Nat) (x : Nat) : List Nat :=
+  match anchor with
+  | none => x :: l
+  | some a =>
+    match l.idxOf? a with
+    | some i => l.take (i + 1) ++ x :: l.drop (i + 1)
+    | none => l ++ [x]
+
+/-- `_insert_one_after` on the abstract sequence: the same value as the anchor is a no-op, a value
+already present is moved -/
+def linkAfter (l : List Nat) (anchor : Option Nat) (x : Nat) : List Nat :=
+  if anchor = some x ∧ x ∈ l then l else insertAfter (l.erase x) anchor x
+
+/-- guarded primitive: make `n` a member of `g` right after `anchor` (`none` = at the front) -/
+def nodeLink (w : World) (g : Nat) (anchor : Option Nat) (n : Nat) : World :=
+  if nodeAddable w g n then
+    (w.setNode n { w.node n with graph := some g }).setGr g
+      { w.gr g with nodes := linkAfter (w.gr g).nodes anchor n }
+  else w
+
+/-- guarded primitive: take `n` out of `g` -/
+def nodeUnlink (w : World) (g n : Nat) : World :=
+  if (w.node n).graph = some g then
+    (w.setNode n { w.node n with graph := none }).setGr g { w.gr g with nodes := (w.gr g).nodes.erase n }
+  else w
+
+/-- the naming half of `_set_node_graph_to_self_and_assign_names` -/
+def assignNames (w : World) (g n : Nat) : World :=
+  (w.node n).outputs.foldl (fun w o => registerValue w g o) (registerNode w g n)
+
+/-- `_insert_many_after` with the names assigned first -/
+def linkMany (w : World) (g : Nat) (anchor : Option Nat) (ns : List Nat) : World :=
+  (ns.foldl (fun (p : World × Option Nat) n => (nodeLink (assignNames p.1 g n) g p.2 n, some n)) (w, anchor)).1
+
+def graphAppend (w : World) (g n : Nat) : World × Outcome :=
+  guardOp (!nodeAddable w g n) "ValueError" w
+    (nodeLink (assignNames w g n) g (w.gr g).nodes.getLast? n)
+
+/-- `Graph.extend` = one `append` per node after all have been checked -/
+def extendMut (w : World) (g : Nat) (ns : List Nat) : World :=
+  ns.foldl (fun w n => nodeLink (assignNames w g n) g (w.gr g).nodes.getLast? n) w
+
+def graphExtend (w : World) (g : Nat) (ns : List Nat) : World × Outcome :=
+  guardOp (!ns.all (nodeAddable w g)) "ValueError" w (extendMut w g ns)
+
+def predOf (l : List Nat) (a : Nat) : Option Nat :=
+  match l.idxOf? a with
+  | some (i + 1) => l[i]?
+  | _ => none
+
+def graphInsertAfter (w : World) (g a : Nat) (ns : List Nat) : World × Outcome :=
+  guardOp ((w.node a).graph ≠ some g || !ns.all (nodeAddable w g)) "ValueError" w (linkMany w g (some a) ns)
+
+def graphInsertBefore (w : World) (g a : Nat) (ns : List Nat) : World × Outcome :=
+  guardOp ((w.node a).graph ≠ some g || !ns.all (nodeAddable w g)) "ValueError" w
+    (linkMany w g (predOf (w.gr g).nodes a) ns)
+
+/-- `_check_node_safe_to_remove` (`_core.py:3476-3509`) -/
+def unsafeToRemove (w : World) (g : Nat) (set : List Nat) (n : Nat) : Bool :=
+  (w.node n).outputs.any (fun o => (w.gr g).outputs.contains o ||
+    (w.val o).uses.any (fun u => !set.contains u.1))
+
+def detachInputs (w : World) (n : Nat) : World :=
+  (List.range (w.node n).inputs.length).foldl (fun w i => setInput w n i none) w
+
+/-- `Graph.remove(nodes, safe=…)` (`_core.py:3869-3907`) -/
+def graphRemove (w : World) (g : Nat) (ns : List Nat) (safe : Bool) : World × Outcome :=
+  guardOp (ns.any (fun n => (w.node n).graph ≠ some g || (safe && unsafeToRemove w g ns n))) "ValueError" w
+    (ns.foldl (fun w n => nodeUnlink (if safe then detachInputs w n else w) g n) w)
+
+/-- `Graph.sort()` seen from the kernel: either a cycle is reported (nothing changes) or every
+involved graph is re-extended with a permutation of its own nodes (`_core.py:4036-4043`).  Which
+permutation is C12's subject; here it is an argument, and a list that is not a permutation of the
+graph's current sequence is ignored. -/
+def sortApply (w : World) (orders : List (Nat × List Nat)) : World :=
+  orders.foldl (fun w p => if p.2.isPerm (w.gr p.1).nodes then extendMut w p.1 p.2 else w) w
+
+/-! ## Constructors with a graph -/
+
+/-- `{initializer.name: initializer for …}`: later entries win, first position kept -/
+def initDict (w : World) (vs : List Nat) : List (String × Nat) :=
+  vs.foldl (fun d v => dictSet d ((w.val v).name.getD "") v) []
+
+/-- `Graph(inputs, outputs, nodes=…, initializers=…)` (`_core.py:3561-3593`) with every check done
+before the first effect -/
+def newGraph (w : World) (inputs outputs nodes inits : List Nat) : World × Outcome :=
+  let g := w.graphs.length
+  let bad := !inputs.all (checkIO w g .inp) || !outputs.all (checkIO w g .out) ||
+    !(initDict w inits).all (fun p => initOK w g p.1 p.2) ||
+    !nodes.all (nodeAddable w g)
+  guardOp bad "ValueError" w <|
+    let w0 := w.setGr g {}
+    let w1 := ioInsertMany w0 g .inp 0 inputs
+    let w2 := ioInsertMany w1 g .out 0 outputs
+    let d := initDict w inits
+    let w3 := d.foldl (fun w p => initPut w g p.1 p.2) w2
+    let w4 := inputs.foldl (fun w v => registerValue w g v) w3
+    let w5 := d.foldl (fun w p => registerValue w g p.2) w4
+    extendMut w5 g nodes
+
+/-- `Node(…, graph=g)`: `graph.append(self)` happens between output creation and use
+registration; a new node belongs to no graph, so it cannot be rejected -/
+def newNode (w : World) (opType : String) (name : Option String) (inputs : List (Option Nat))
+    (numOutputs : Option Int) (outputs : Option (List Nat)) (graph : Option Nat) : World × Outcome :=
+  guardOp (newNodeBad w numOutputs outputs) "ValueError" w <|
+    let n := w.nodes.length
+    let w1 := newNodeMut w opType name inputs numOutputs outputs
+    match graph with
+    | none => w1
+    | some g => nodeLink (assignNames w1 g n) g (w1.gr g).nodes.getLast? n
+
+/-- `Value.replace_all_uses_with(replacement, replace_graph_outputs=…)` (`_core.py:3361-3414`): a
+graph output is only replaced when asked to and when the graph accepts the replacement -/
+def rauw (w : World) (v r : Nat) (rgo : Bool) : World × Outcome :=
+  let og := if (w.val v).isOut then (w.val v).graph else none
+  guardOp ((w.val v).isOut && (match (w.val v).graph with
+      | some g => !rgo || !checkIO w g .out r
+      | none => true)) "ValueError" w
+    (rauwUses (match og with
+      | some g => ioReplaceMany w g .out
+          (((enumFrom 0 (w.gr g).outputs).filter (fun p => p.2 = v)).map (·.1))
+          (List.replicate (w.gr g).outputs.length r)
+      | none => w) v r)
+
+/-- a const tensor for a value (`Value.const_value = ir.tensor(...)`); tensors are only named -/
+def setConst (w : World) (v : Nat) : World × Outcome :=
+  let t := w.tensors.length
+  (({ w with tensors := lset w.tensors t none }).setVal v { w.val v with const := some t }, .ok)
+
 /-! ## The operation alphabet -/
 
 inductive Op where
   | newValue (name : Option String)
+  | setConst (v : Nat)
   | newNode (opType : String) (name : Option String) (inputs : List (Option Nat))
-      (numOutputs : Option Int) (outputs : Option (List Nat))
+      (numOutputs : Option Int) (outputs : Option (List Nat)) (graph : Option Nat)
+  | newGraph (inputs outputs nodes inits : List Nat)
   | replaceInput (n : Nat) (idx : Int) (v : Option Nat)
   | resizeInputs (n : Nat) (k : Int)
   | resizeOutputs (n : Nat) (k : Int)
-  | rauw (v r : Nat)
+  | rauw (v r : Nat) (rgo : Bool)
+  | io (g : Nat) (k : IOKind) (m : IOMut)
+  | init (g : Nat) (m : InitMut)
+  | setName (v : Nat) (s : Option String)
+  | append (g n : Nat)
+  | extend (g : Nat) (ns : List Nat)
+  | insertAfter (g a : Nat) (ns : List Nat)
+  | insertBefore (g a : Nat) (ns : List Nat)
+  | remove (g : Nat) (ns : List Nat) (safe : Bool)
+  | sortOk (orders : List (Nat × List Nat))
+  | sortCycle
   deriving Repr
 
 def step (w : World) : Op → World × Outcome
   | .newValue name => newValue w name
-  | .newNode opType name inputs numOutputs outputs => newNodeCore w opType name inputs numOutputs outputs
+  | .setConst v => setConst w v
+  | .newNode opType name inputs numOutputs outputs graph => newNode w opType name inputs numOutputs outputs graph
+  | .newGraph inputs outputs nodes inits => newGraph w inputs outputs nodes inits
   | .replaceInput n idx v => replaceInput w n idx v
   | .resizeInputs n k => resizeInputs w n k
   | .resizeOutputs n k => resizeOutputs w n k
-  | .rauw v r => (rauwUses w v r, .ok)
+  | .rauw v r rgo => rauw w v r rgo
+  | .io g k m => ioMut w g k m
+  | .init g m => initMut w g m
+  | .setName v s => setName w v s
+  | .append g n => graphAppend w g n
+  | .extend g ns => graphExtend w g ns
+  | .insertAfter g a ns => graphInsertAfter w g a ns
+  | .insertBefore g a ns => graphInsertBefore w g a ns
+  | .remove g ns safe => graphRemove w g ns safe
+  | .sortOk orders => (sortApply w orders, .ok)
+  | .sortCycle => (w, .raised "ValueError")
 
 def run (ops : List Op) : World := ops.foldl (fun w o => (step w o).1) World.empty
 
